@@ -594,7 +594,9 @@ func checkGoString(c C20Case, o *Obs) error {
 	for k := range m {
 		keys = append(keys, k)
 	}
-	sort.Slice(keys, func(i, j int) bool { return keys[i][0] < keys[j][0] || keys[i][0] == keys[j][0] && keys[i][1] < keys[j][1] })
+	sort.Slice(keys, func(i, j int) bool {
+		return keys[i][0] < keys[j][0] || keys[i][0] == keys[j][0] && keys[i][1] < keys[j][1]
+	})
 	k0 := keys[len(keys)/2]
 	if v := m[k0]; math.IsInf(v, 0) || math.IsNaN(v) {
 		m[k0] = 7
